@@ -585,6 +585,34 @@ impl<'w> Ctx<'w> {
                 let b = self.expr(&c.args[1])?;
                 Ok(E { s: format!("({}, {})", a.s, b.s), ty: Ty::Tuple(vec![a.ty, b.ty]), eff: a.eff || b.eff })
             }
+            "Cow::Borrowed" | "Cow::Owned" if c.args.len() == 1 => self.expr(&c.args[0]),
+            n if self.xcodec && f.path.segments.len() == 1 && n.ends_with("_decompress") && c.args.len() == 2 => {
+                // `<codec>_decompress(data, out)`: the codec crate, external; it consumes its input through `Read` to the end and appends to `out`
+                let codec = n.strip_suffix("_decompress").unwrap().to_string();
+                let src = self.place_of(&c.args[0]).ok_or("codec input is not a place")?;
+                let dst = self.place_of(&c.args[1]).ok_or("codec output is not a place")?;
+                if self.resolve(&src.ty) != Ty::Src || self.resolve(&dst.ty) != Ty::Bytes { return Err("codec argument types".into()); }
+                self.used_xdecompress = true;
+                let cur = self.place_read(&src);
+                let (body, s2, raw) = (self.fresh("body"), self.fresh("s"), self.fresh("raw"));
+                self.pre.push(format!("let ({}, {}) := {}.readToEnd", body, s2, cur));
+                let w = self.place_write(&src, &s2);
+                self.pre.push(w);
+                self.pre.push(format!("let {} ← liftDecompress (xdecompress \"{}\" {})", raw, codec, body));
+                let dcur = self.place_read(&dst);
+                let w2 = self.place_write(&dst, &format!("({} ++ {})", dcur, raw));
+                self.pre.push(w2);
+                Ok(E { s: "()".into(), ty: Ty::Res(Box::new(Ty::Unit)), eff: false })
+            }
+            n if self.xcodec && f.path.segments.len() == 1 && n.ends_with("_compress") && c.args.len() == 2 => {
+                let codec = n.strip_suffix("_compress").unwrap().to_string();
+                let d = self.expr(&c.args[0])?;
+                let lvl = self.expr(&c.args[1])?;
+                self.unify(&lvl.ty, &Ty::U(32))?;
+                if self.resolve(&d.ty) != Ty::Bytes { return Err("codec argument types".into()); }
+                self.used_xcompress = true;
+                Ok(E { s: format!("(← liftCompress (xcompress \"{}\" {} {}))", codec, paren(&lvl.s), paren(&d.s)), ty: Ty::Res(Box::new(Ty::Bytes)), eff: true })
+            }
             "Vec::new" => Ok(e("[]", Ty::Any)),
             "BinaryHeap::new" => Ok(e("[]", Ty::Heap(Box::new(Ty::Any)))),
             "Error::Merge" => Ok(e("RErr.merge", Ty::Named("RErr".into()))),
@@ -1029,6 +1057,18 @@ impl<'w> Ctx<'w> {
                     self.pre.push(w);
                     return Ok(E { s: format!("(← liftIo {})", r), ty: Ty::Res(Box::new(Ty::U(64))), eff: true });
                 }
+                (Ty::Src, "read_to_end") => {
+                    let dst = self.place_of(args[0]).ok_or("read_to_end destination is not a place")?;
+                    if self.resolve(&dst.ty) != Ty::Bytes { return Err("read_to_end into a non-byte buffer".into()); }
+                    let (body, s2) = (self.fresh("body"), self.fresh("s"));
+                    self.pre.push(format!("let ({}, {}) := {}.readToEnd", body, s2, cur));
+                    let w = self.place_write(&p, &s2);
+                    self.pre.push(w);
+                    let dcur = self.place_read(&dst);
+                    let w2 = self.place_write(&dst, &format!("({} ++ {})", dcur, body));
+                    self.pre.push(w2);
+                    return Ok(E { s: format!("{}.length", body), ty: Ty::Res(Box::new(Ty::U(64))), eff: false });
+                }
                 (Ty::Src, "read_u8" | "read_u16" | "read_u32" | "read_u64") => {
                     let n: u32 = name[6..].parse::<u32>().unwrap() / 8;
                     let endian = turbofish(m).unwrap_or("LittleEndian".into());
@@ -1137,6 +1177,11 @@ impl<'w> Ctx<'w> {
             }
             (Ty::Opt(t), "is_some") => { let _ = t; Ok(E { s: format!("{}.isSome", paren(&recv.s)), ty: Ty::Bool, eff }) }
             (Ty::Opt(t), "is_none") => { let _ = t; Ok(E { s: format!("{}.isNone", paren(&recv.s)), ty: Ty::Bool, eff }) }
+            (Ty::Res(_), "map") if matches!(args[0], Expr::Path(p) if p.path.is_ident("drop")) => {
+                // the value is discarded; evaluating it has already happened
+                if recv.eff { self.pre.push(format!("let _ := {}", recv.s)); }
+                Ok(E { s: "()".into(), ty: Ty::Res(Box::new(Ty::Unit)), eff: false })
+            }
             (Ty::Res(t), "map") if matches!(args[0], Expr::Path(p) if p.path.is_ident("Some")) => {
                 Ok(E { s: format!("(Option.some {})", recv.s), ty: Ty::Res(Box::new(Ty::Opt(t))), eff })
             }
